@@ -296,3 +296,57 @@ class DataFrameToSymbols(FunctionContract):
 
 
 CONTRACTS.append(DataFrameToSymbols())
+
+
+class ExportForwarder(FunctionContract):
+    """to_dataframe / to_dataframes of models and linkers: one call of the export function of fsic.tools with the object itself and the three
+    options exactly as given (whatever combination), and its result handed back."""
+    props = ('C19',)
+    TARGETS = {
+        'fsic.core.models.BaseModel.to_dataframe': 'fsic.tools.model_to_dataframe',
+        'fsic.core.linkers.BaseLinker.to_dataframe': 'fsic.tools.model_to_dataframe',
+        'fsic.core.linkers.BaseLinker.to_dataframes': 'fsic.tools.linker_to_dataframes',
+    }
+
+    def __init__(self, qualname):
+        self.qualname = qualname
+
+    def scenarios(self):
+        return ['all-options-given', 'defaults']
+
+    def setup(self, interp, scenario):
+        import fsic
+        cls = fsic.BaseLinker if '.linkers.' in self.qualname else fsic.BaseModel
+        obj = SObj(cls, {}, label='exported')
+        e = {'calls': [], 'obj': obj, 'result': object(), 'inputs': {},
+             'given': {'status': object(), 'iterations': object(), 'include_internal': object()} if scenario == 'all-options-given' else {}}
+
+        def export(interp_, o, args, kwargs, node):
+            e['calls'].append((list(args), dict(kwargs)))
+            return e['result']
+        interp.registry.set_calls({self.TARGETS[self.qualname]: export})
+        return Call([], dict(e['given']), self_obj=obj, entry=e)
+
+    def post(self, interp, scenario, call, out):
+        ctx = interp.ctx
+        e = call.entry
+        if out.kind == 'raise':
+            ctx.prove(False, f'no_exception_of_its_own:{getattr(exc_class(out.exc), "__name__", "?")}', 'raises')
+            return
+        ok = len(e['calls']) == 1
+        ctx.prove(z3.BoolVal(ok), 'export_function_called_exactly_once', 'ensures')
+        if not ok:
+            return
+        args, kw = e['calls'][0]
+        names = ['status', 'iterations', 'include_internal']
+        got = dict(kw)
+        for nm, v in zip(['self'] + names, args):          # (positional spelling is as good as keywords)
+            got[nm] = v
+        ctx.prove(z3.BoolVal(got.get('self') is e['obj'] or (args and args[0] is e['obj'])), 'the_object_itself_is_exported', 'ensures')
+        want = e['given'] or {'status': True, 'iterations': True, 'include_internal': False}
+        same = all((got.get(k) is want[k]) if e['given'] else (k not in got or got[k] is want[k] or got[k] == want[k]) for k in names)
+        ctx.prove(z3.BoolVal(bool(same)), 'status_iterations_and_include_internal_are_passed_on_as_given', 'ensures', note=str(sorted(got)))
+        ctx.prove(z3.BoolVal(out.value is e['result']), 'returns_what_the_export_function_returns', 'ensures')
+
+
+CONTRACTS += [ExportForwarder(q) for q in ExportForwarder.TARGETS]
